@@ -631,6 +631,16 @@ def rule_typestate(chk: Check, view: AsyncView, rid: str):
             chk.violation(rid, f"transition-missing:{key}", f"{key} no longer sets _state (reference transition -> {REF_AUTOMATON[key][1]})",
                           chk.loc(view.fi(key)))
     rule_gates(chk, view, rid)
+    # the lifecycle tasks end in their target state on every path (a stopping task that can return early leaves the wrapper in
+    # STOPPING for ever: no new episode can be started)
+    for key in ("node._stop._stopping", "conn.stop._stopping", "node._startup._starting"):
+        if key in view.missing:
+            continue
+        r = view.results[key]
+        sts = [e for e in r.events if e.kind == "store_attr" and e.name == "self._state"]
+        if sts:
+            chk.add(rid, f"terminal:{key}", all(e.guard == T.TRUE for e in sts), f"{key} reaches {REF_AUTOMATON[key][1]} only under {T.show(sts[0].guard)[:100]}: the task must "
+                    "complete its transition on every path (whatever the user's stop() / startup() hook returns)", chk.loc(view.fi(key), sts[0].node))
     # flip + submit under one lock
     for key, clo, flag in (("node._stop", "_stopping", True), ("conn.stop", "_stopping", True), ("node._startup", "_starting", False)):
         r = view.results[key]
@@ -806,6 +816,22 @@ def rule_reset_complete(chk: Check, view: AsyncView, rid: str):
                 detail = f"self.{attr} is reset to {T.show(e.term)[:80]}, expected {T.show(RESET_VALUES[cls][attr])}"
             chk.add(rid, f"{cls}.{attr}", ok, detail, chk.loc(view.fi(reset_key), e.node))
         chk.floor(rid, f"{cls} mutated attributes", n, 8)
+    # attributes of the *wrapped node* that task code clears at the end of an episode must be set again on the start path
+    cleared = {}
+    for key in [k for k in view.results if k.startswith("node.")]:
+        for e in view.results[key].events:
+            if e.kind == "store_attr" and e.recv == S("self.node"):
+                cleared.setdefault(e.name.split(".")[-1], []).append((key, e))
+    start_side = ("node.__init__", "node._reset", "node._start", "node._set_ts_start", "node._startup", "node.warmup")
+    for attr, sites in sorted(cleared.items()):
+        task_sites = [(k, e) for k, e in sites if k not in start_side]
+        if not task_sites:
+            continue
+        per_episode = [(k, e) for k, e in sites if k in ("node._reset", "node._start", "node._set_ts_start") and e.guard == T.TRUE]
+        reached = any(k != "node._set_ts_start" for k, _ in per_episode) or (
+            any(k == "node._set_ts_start" for k, _ in per_episode) and any(e.kind == "call" and e.name == "self._set_ts_start" and e.guard == T.TRUE for e in view.results["node._start"].events))
+        chk.add(rid, f"node.node.{attr}", reached, f"self.node.{attr} is changed by {[k for k, _ in task_sites][:2]} at the end of an episode but set again only in "
+                f"{sorted({k for k, _ in sites if k in start_side})}: every episode start (_reset / _start) must restore it", chk.loc(view.fi(task_sites[0][0]), task_sites[0][1].node))
     # node: eps advanced before the inputs are reset and before READY; sampler seeded from the step rng
     r = view.results["node._reset"]
     fq = view.fi("node._reset").qualname
